@@ -155,37 +155,71 @@ def run(ctx):
     for _ in range(nhist // 3):
         lines += gen_heap(rng, rng.randrange(3, 60))
     blocks = split_blocks(lines)
-    d, cout, mout, status, cerr = compare(ctx, exe, lines)
+    # batches of whole histories, run in parallel; each batch gets a time budget proportional to its size
+    batches, cur, n = [], [], 0
+    for b in blocks:
+        cur.append(b); n += len(b)
+        if n >= 4000:
+            batches.append(cur); cur, n = [], 0
+    if cur:
+        batches.append(cur)
+    C.driver_exe(ctx)  # build once before fanning out
+
+    def run_batch(bs):
+        ls = [l for b in bs for l in b]
+        rc, cout, cerr = C.run_harness(exe, ["20"], ls, timeout=120 + len(ls) // 10)
+        mout = C.run_driver(ctx, "arr", ls, timeout=120 + len(ls) // 10)
+        st = C.classify_rc(rc, cerr)
+        if cout and cout[-1] == "HANG":
+            st = "HANG"
+        return bs, C.diff_streams(cout, mout), st
+    from concurrent.futures import ThreadPoolExecutor
+    with ThreadPoolExecutor(max_workers=8) as ex:
+        results = list(ex.map(run_batch, batches))
     evaluations = len(lines)
     dist = {}
     for l in lines:
         dist[l.split()[0]] = dist.get(l.split()[0], 0) + 1
-    if d is not None or status != "ok":
-        # locate the block, shrink it
+    status = "ok"
+    for bs, d, st in results:
+        if d is None and st == "ok":
+            continue
+        status = st
+        # locate the failing history inside the batch
         upto = 0
         bad = None
-        for b in blocks:
+        for b in bs:
             if d is not None and upto <= d < upto + len(b):
                 bad = b; break
             upto += len(b)
         if bad is None:
-            bad = blocks[-1]
+            # crash/hang without a differing line: find the first history that fails alone
+            for b in bs:
+                dd, co, mo, st2, ce = compare(ctx, exe, b, wd=10)
+                if dd is not None or st2 != "ok":
+                    bad = b; break
+        if bad is None:
+            ctx.problem("corr", "batch failed (%s) but no single history reproduces it" % st,
+                        "\n".join(l for b in bs for l in b)[:200000], found_input=False)
+            break
 
         def fails(sub):
             if not sub or sub[0] != "new":
                 sub = ["new"] + [x for x in sub if x != "new"]
-            dd, co, mo, st, ce = compare(ctx, exe, sub, wd=5)
-            return dd is not None or st != "ok"
+            dd, co, mo, st2, ce = compare(ctx, exe, sub, wd=5)
+            return dd is not None or st2 != "ok"
         small = C.ddmin(bad, fails, max_tests=150)
         if not small or small[0] != "new":
             small = ["new"] + [x for x in small if x != "new"]
-        dd, co, mo, st, ce = compare(ctx, exe, small, wd=5)
+        dd, co, mo, st2, ce = compare(ctx, exe, small, wd=5)
+        if dd is None and st2 == "ok":      # shrinking lost it: fall back to the unshrunk history
+            small = bad
+            dd, co, mo, st2, ce = compare(ctx, exe, small, wd=10)
         k = dd if dd is not None else max(0, len(co) - 1)
         what = "arr.c disagrees with the model on a %d-op history (status %s): op %r: impl %r vs model %r" % (
-            len(small) - 1, st, small[min(k, len(small) - 1)], co[k] if k < len(co) else "<no output>", mo[k] if k < len(mo) else "<none>")
-        # is it a property violation on the real code? -- non-termination, sanitizer report, or impl state
-        # that itself breaks size/tally/read-back (checked on the impl dump)
-        ctx.problem("impl", what, "# feed to harness/arr_h.c (built against /repo) and to `hawkdrv arr`\n" + "\n".join(small) + "\n# impl:\n" + "\n".join(co) + "\n# model:\n" + "\n".join(mo) + "\n" + ce[-1500:], found_input=True)
+            len(small) - 1, st2, small[min(k, len(small) - 1)], co[k] if k < len(co) else "<no output>", mo[k] if k < len(mo) else "<none>")
+        ctx.problem("impl", what, "# feed to harness/arr_h.c (built against /repo) and to `hawkdrv arr`\n" + "\n".join(small) + "\n# impl:\n" + "\n".join(co) + "\n# model:\n" + "\n".join(mo) + "\n" + ce[-1500:], found_input=(dd is not None or st2 != "ok"))
+        break
     evaluations += hawk_level(ctx, libdir)
     nontriv = len({tuple(b) for b in blocks if nontrivial_signature(b)})
     samples = [" ; ".join(b[:8]) for b in blocks[ncorpus and 1 or 0:][-3:]] + [" ; ".join(blocks[len(blocks) // 2][:10])]
